@@ -605,6 +605,68 @@ func U%[1]d() {
 			g.q(user, libs[0], fmt.Sprintf("MI%d", u)), g.q(user, libs[1], fmt.Sprintf("MI%d", u))))
 		return user
 	}},
+	{"param_copies_independent", false, func(g *G, u int) string {
+		// several local copies of one by-value aggregate parameter are distinct objects; the parameter itself can be
+		// reassigned, copied again in a loop, captured and passed on without the copies noticing
+		p := g.pkgOrMain()
+		it := g.pick([]string{"int64", "int32", "int16", "uint8", "float64"}, "ft")
+		nf := g.n(2, 5, "nfields")
+		var fields, lit strings.Builder
+		for i := 0; i < nf; i++ {
+			fmt.Fprintf(&fields, "f%d %s; ", i, it)
+			fmt.Fprintf(&lit, "%d, ", i+1)
+		}
+		an := g.n(1, 6, "alen")
+		k1, k2 := g.n(0, nf-1, "k1"), g.n(0, nf-1, "k2")
+		g.add(p, fmt.Sprintf(`type pc%[1]d struct{ %[2]s }
+
+//go:noinline
+func two%[1]d(p pc%[1]d) (pc%[1]d, pc%[1]d, pc%[1]d) {
+	a := p
+	b := p
+	a.f%[4]d = 100
+	b.f%[5]d = 200
+	return a, b, p
+}
+
+//go:noinline
+func reassign%[1]d(p pc%[1]d, n int) (pc%[1]d, pc%[1]d) {
+	a := p
+	p.f%[4]d = 50
+	var last pc%[1]d
+	for i := 0; i < n; i++ {
+		c := p
+		c.f%[5]d += %[3]s(i)
+		last = c
+	}
+	return a, last
+}
+
+//go:noinline
+func arr%[1]d(p [%[6]d]%[3]s, q pc%[1]d) ([%[6]d]%[3]s, [%[6]d]%[3]s, pc%[1]d) {
+	a, b := p, p
+	a[0] = 7
+	b[%[6]d-1] = 9
+	f := func() pc%[1]d { c := q; c.f0 = 33; return c }
+	r := f()
+	q.f0 = 44
+	return a, b, r
+}
+
+func U%[1]d() {
+	v := pc%[1]d{%[7]s}
+	a, b, c := two%[1]d(v)
+	d, e := reassign%[1]d(v, 3)
+	var w [%[6]d]%[3]s
+	for i := range w {
+		w[i] = %[3]s(i + 1)
+	}
+	x, y, z := arr%[1]d(w, v)
+	println("#%[1]d", a == v, b == v, c == v, a == b, d == v, e == v, x == w, y == w, x == y, z == v, a.f%[4]d == 100, b.f%[5]d == 200, int64(e.f%[5]d), int64(x[0]), int64(y[%[6]d-1]), int64(z.f0), v.f0 == 1)
+}
+`, u, fields.String(), it, k1, k2, an, lit.String()))
+		return p
+	}},
 	{"structs_arrays_copy", false, func(g *G, u int) string {
 		p := g.pkgOrMain()
 		a := g.n(1, 9, "a")
